@@ -554,6 +554,40 @@ theorem forwarding_fields_sent_on_every_attempt (N : Net Addr Prefix) (cfg : Cfg
   · exact ⟨dropNil_sent s1, dropNil_sent s2, fun _ => dropNil_sent s3⟩
   · exact ⟨dropNil_sent s1, dropNil_sent s2, fun h => absurd rfl h⟩
 
+/-! ## requests on one connection: history independence -/
+
+/-- **the attribution of a request does not depend on the other requests of its connection.** On a
+    keep-alive or HTTP/2 connection, request number k is attributed exactly what it would be attributed
+    alone: a function of the peer, the configuration and ITS OWN headers. -/
+theorem request_attribution_is_history_independent (N : Net Addr Prefix) (cfg : Cfg Prefix) (c : Conn)
+    (pre post : List (List (Bytes × Bytes))) (w : List (Bytes × Bytes)) :
+    (serveConnection N cfg c (pre ++ w :: post))[pre.length]? = some (serve N cfg c w) := by
+  simp [serveConnection]
+
+/-- … so two connections that agree on request k agree on its attribution, whatever came before or after -/
+theorem same_request_same_attribution_on_any_connection (N : Net Addr Prefix) (cfg : Cfg Prefix) (c : Conn)
+    (pre post pre' post' : List (List (Bytes × Bytes))) (w : List (Bytes × Bytes)) :
+    (serveConnection N cfg c (pre ++ w :: post))[pre.length]? =
+      (serveConnection N cfg c (pre' ++ w :: post'))[pre'.length]? := by
+  rw [request_attribution_is_history_independent, request_attribution_is_history_independent]
+
+/-- every request on a trusted proxy's connection gets its own left-most valid address (non-strict mode) -/
+theorem every_request_gets_its_own_client (N : Net Addr Prefix) (cfg : Cfg Prefix) (c : Conn)
+    (reqs : List (List (Bytes × Bytes))) (ht : serverTrusts N cfg c = true) (hs : cfg.strict = 0) :
+    ∃ ip, peerAddr N c = some ip ∧
+      (serveConnection N cfg c reqs).map (·.clientIP) =
+        reqs.map (fun w => strOr N (N.toString ip)
+          (leftmostValid N ((configuredValues w (effectiveHeaders cfg)).flatMap (splitOn comma)))) := by
+  obtain ⟨ip, hip, _⟩ := trusted_leftmost_valid N cfg c [] ht hs
+  refine ⟨ip, hip, ?_⟩
+  simp only [serveConnection, List.map_map]
+  apply List.map_congr_left
+  intro w _
+  obtain ⟨ip', hip', h⟩ := trusted_leftmost_valid N cfg c w ht hs
+  rw [hip] at hip'
+  cases hip'
+  exact h
+
 /-! ## templates' httpInclude: the virtual sub-request -/
 
 /- FULL statement: for an outer peer that is not a trusted proxy, what the included sub-request is attributed
@@ -1035,6 +1069,10 @@ example : (optionsFor (some b!":8443") [b!":80"] ⟨some [b!"10.0.0.0/8"], true,
       ⟨some [b!"10.0.0.0/8"], true, none, [], phClientIP⟩ := by decide
 -- include_attribution_partial: with 10.0.0.0/8 trusted the dummy address 127.0.0.1:10000 is not a trusted proxy
 example : serverTrusts toyNetL { witInc with srvTrusted := some [b!"10."] } ⟨virtualRemote, false, b!"a", false⟩ = false := by decide
+-- requests on one connection: three requests from the trusted 10.0.0.1 — each gets its own client, the last
+-- (no header) the peer itself
+example : (serveConnection toyNet exCfg exTrusted [[(b!"X-Forwarded-For", b!"9.9.9.9")], [(b!"X-Real-IP", b!"8.8.8.8")], []]).map (·.clientIP) =
+    [b!"9.9.9.9", b!"8.8.8.8", b!"10.0.0.1"] := by decide
 -- elements_are_per_value
 example : elements [b!"a,b", b!"", b!"c"] = [b!"a", b!"b", b!"", b!"c"] := by decide
 -- trimSpace_never_runs_out_of_fuel: NBSP, EM SPACE and ASCII blanks around an address
